@@ -97,6 +97,31 @@ def record_many(items, procs=None):
         return pool.map(_work, items, chunksize=4)
 
 
+def request_met_by_result(chk, verdicts, prop):
+    """conclusion of Props/C07Point.lean evaluated on what the implementation returned: a result with status 1 is
+    feasible within feasibility_tol and meets the target, one with status 4 is feasible within feasibility_tol"""
+    n = 0
+    for s, v in verdicts:
+        if s.get("status") not in (1, 4) or not isinstance(s.get("truth"), dict) or "maxcv" not in s["truth"]:
+            continue
+        n += 1
+        o = s["desc"].get("options") or {}
+        tol = float(o.get("feasibility_tol", np.sqrt(np.finfo(float).eps)))
+        tgt = o.get("target", -np.inf)
+        tgt = -np.inf if tgt == "-inf" else float(tgt)
+        mc, fv = s["truth"]["maxcv"], s["truth"]["fun"]
+        fail = None
+        if not mc <= tol:
+            fail = f"status {s['status']} but the returned point has maxcv {mc!r} > feasibility_tol {tol!r}"
+        elif s["status"] == 1 and not min(fv, 2.0 ** 100) <= tgt:
+            fail = f"status 1 but the returned point has fun {fv!r} > target {tgt!r}"
+        if fail:
+            chk.violation({"property": prop, "kind": "spec-fails-on-implementation", "desc": s["desc"], "inject": s["inject"], "failure": fail,
+                           "result": {k: s.get(k) for k in ("status", "nfev", "nit", "success")},
+                           "signature": {"failure": "returned point does not satisfy the request"}})
+    chk.coverage["results_with_status_1_or_4_checked_against_the_request"] = n
+
+
 INJECT_SITES = ["get_index_to_remove", "update_interpolation", "reset_models", "get_geometry_step", "fun_alt_grad"]
 
 
@@ -148,7 +173,7 @@ def run_check(chk, rng, replay, prop, modules, focus, n_quick, n_thorough, own_t
     if replay is not None:
         items = [(replay["desc"], replay.get("inject"), 120)]
     else:
-        items = [(c["desc"], c.get("inject"), 120) for c in corpus.load(prop)]
+        items = [(c["desc"], c.get("inject"), 120) for c in corpus.load(prop, shared=True)]
         n = n_quick if chk.tier == "quick" else n_thorough
         items += gen_items(rng, n, focus, p_inject=p_inject)
         # a share of runs from the generic mix so that every run-level check sees every kind of run
